@@ -10,7 +10,7 @@ func OpenCoroutine(L *LState) int {
 var coFuncs = map[string]LGFunction{
 	"create":  coCreate,
 	"yield":   coYield,
-	"resume":  coResume,
+	"resume":  coResumeLua,
 	"running": coRunning,
 	"status":  coStatus,
 	"wrap":    coWrap,
@@ -140,7 +140,16 @@ func coStatus(L *LState) int {
 }
 
 func wrapaux(L *LState) int {
-	L.Insert(L.ToThread(UpvalueIndex(1)), 1)
+	th := L.ToThread(UpvalueIndex(1))
+	th.wrapped = true // this resume hands values and errors over the way a wrap function does
+	L.Insert(th, 1)
+	return coResume(L)
+}
+
+// coResumeLua is coroutine.resume: whatever created the thread, this resume reports
+// (true, values...) or (false, error).
+func coResumeLua(L *LState) int {
+	L.CheckThread(1).wrapped = false
 	return coResume(L)
 }
 
